@@ -496,3 +496,50 @@ def history_deep_scenario(rng: random.Random, i: int) -> dict:
     """Long fire-and-forget chains across buses with tiny history limits: completion has to climb through ancestors
     that were evicted (while started, and after their own handlers returned) from every history."""
     return random_scenario(rng, cfg(hist=[1, 1, 2, 3], nb=(1, 3), levels=6, modes=['fire', 'fire', 'fire', 'await', 'later'], prog_len=(1, 3), handlers_per=(1, 1, 2), actor_ops=(2, 6), p_idle=0.05, p_wild=0.05))
+
+
+def shapes_scenario(rng: random.Random, i: int) -> dict:
+    """Registration and await SHAPES: one function object registered on two buses / under two patterns / twice; bound methods;
+    a child awaited twice, awaited by a sibling handler that did not dispatch it, dispatched to two buses; an actor awaiting
+    another actor's event; zero-handler events."""
+    sc = random_scenario(rng, cfg(nb=(1, 3), p_par=0.35, p_lazy=0.2, levels=4, p_idle=0.05, p_wild=0.1, p_redisp=0.03, p_actor_redisp=0.05, modes=['fire', 'await', 'await', 'later', 'await2']))
+    nb = len(sc['buses'])
+    hs = sc['handlers']
+    n0 = len(hs)
+    # shared function objects
+    for _ in range(rng.randint(0, 3)):
+        if not n0:
+            break
+        j = rng.randrange(n0)
+        src = hs[j]
+        if src['pat'] == '*' and rng.random() < 0.5:
+            continue
+        x = rng.random()
+        t = src['pat'] if isinstance(src['pat'], int) else (int(src['pat'][1:]) if isinstance(src['pat'], str) and src['pat'].startswith('E') and src['pat'][1:].isdigit() else None)
+        if x < 0.3 and t is not None:
+            pat = f'E{t}' if isinstance(src['pat'], int) else t  # the other spelling of the same type
+            hs.append({'bus': src['bus'], 'pat': pat, 'kind': src['kind'], 'prog': [], 'same_as': j})
+        elif x < 0.5:
+            hs.append({'bus': src['bus'], 'pat': src['pat'], 'kind': src['kind'], 'prog': [], 'same_as': j})  # registered twice
+        elif x < 0.7 and not any(op[0] == 'disp' for op in src['prog']):
+            hs.append({'bus': src['bus'], 'pat': '*', 'kind': src['kind'], 'prog': [], 'same_as': j})  # also as wildcard (never dispatches)
+        elif nb > 1:
+            hs.append({'bus': rng.choice([b for b in range(nb) if b != src['bus']]), 'pat': src['pat'], 'kind': src['kind'], 'prog': [], 'same_as': j})  # same function on another bus
+    # sibling handlers that await an event dispatched (and shared) by another handler of the same event
+    if rng.random() < 0.6:
+        b = rng.randrange(nb)
+        key = f'k{i}'
+        hs.append({'bus': b, 'pat': 0, 'kind': 'async', 'prog': [['disp', 2, rng.randrange(nb), rng.choice(['await', 'fire', 'later', 'await2']), rng.choice([None, 0]), {'share': key}], ['sleep', rng.choice(SHORT)]]})
+        hs.append({'bus': b, 'pat': 0, 'kind': 'async', 'prog': [['sleep', rng.choice([0, 0, 0.001, 0.05])], ['await_shared', key], ['disp', 3, b, 'fire', None, {}]]})
+        if rng.random() < 0.4:
+            hs.append({'bus': rng.randrange(nb), 'pat': 1, 'kind': 'async', 'prog': [['sleep', rng.choice(SHORT)], ['await_shared', key]]})
+    # the same child object dispatched to two buses by one handler
+    if nb > 1 and rng.random() < 0.4:
+        b = rng.randrange(nb)
+        hs.append({'bus': b, 'pat': 1, 'kind': rng.choice(['async', 'sync']), 'prog': [['disp', 3, b, 'fire', None, {'also': rng.choice([x for x in range(nb) if x != b])}]]})
+    # an actor awaiting another actor's events
+    na = len(sc['actors'])
+    if na > 1 and rng.random() < 0.6:
+        sc['actors'][0].append(['await_of', 1, 0])
+        sc['actors'][1].insert(rng.randrange(len(sc['actors'][1]) + 1), ['await_of', 0, 0])
+    return sc
